@@ -215,6 +215,8 @@ class Builder
 {
 public:
     explicit Builder(int cls);
+    // the object is constructed from wire bytes with the class's public (data, size) constructor (any size, also shorter than the header)
+    Builder(int cls, const uint8_t* wire, size_t n);
     ~Builder();
     Builder(const Builder&) = delete;
     Builder& operator=(const Builder&) = delete;
